@@ -151,8 +151,10 @@ func (c *channels) monitorTopic(ctx context.Context, sub coreiface.PubSubSubscri
 		}
 
 		// Make sure the message is coming from the correct peer
-		// Filter out all messages that didn't come from the second peer
-		if msg.From().String() == c.selfID.String() {
+		// Filter out all messages that didn't come from the second peer:
+		// the name of the topic is derived from the two peer ids, anybody
+		// can publish on it, and what is emitted is attributed to p
+		if msg.From() != p {
 			continue
 		}
 
